@@ -1,6 +1,7 @@
 package esib
 
 import (
+	"go/token"
 	"go/types"
 	"sort"
 	"strings"
@@ -49,29 +50,64 @@ func (t *dterm) String() string {
 	return t.op + "(" + strings.Join(parts, ",") + ")"
 }
 
+// dframe binds the parameters of a function being interpreted: at depth 0 a
+// parameter is the leaf "p<i>"; in an inlined helper it is the location (or
+// value term) of the actual argument.
+type dframe struct {
+	fn    *ssa.Function
+	locs  map[*ssa.Parameter]string
+	vals  map[*ssa.Parameter]*dterm
+	depth int
+	ret   ssa.Value // value returned (for aliasing a returned pointer)
+}
+
+// inlineHelper reports whether a call of callee is interpreted in place: an
+// unexported function or method of package curve with a straight-line Go body.
+// Exported and Add*/Sub* callees stay opaque (they are the delegation targets
+// the duality substitution renames).
+func inlineHelper(callee *ssa.Function) bool {
+	if callee == nil || callee.Pkg == nil || load.Rel(callee.Pkg.Pkg) != curveRel || len(callee.Blocks) == 0 || len(callee.FreeVars) != 0 {
+		return false
+	}
+	o, _ := callee.Object().(*types.Func)
+	if o == nil || o.Exported() || strings.HasPrefix(o.Name(), "Add") || strings.HasPrefix(o.Name(), "Sub") {
+		return false
+	}
+	if rn := recvNamed(o); rn != nil {
+		// conversions and other methods of the point models are operations of
+		// the formula, not helpers
+		lower := strings.ToLower(o.Name())
+		if strings.HasPrefix(lower, "set") || lower == "double" || lower == "identity" || lower == "neg" {
+			return false
+		}
+	}
+	return len(load.LiveBlocks(callee)) == 1
+}
+
 // dagOf interprets a straight-line method and returns the terms written to
 // locations rooted at the receiver ("p0", "p0.X", ...).  err != "" when the
-// body is outside the supported fragment.
+// body is outside the supported fragment.  Small unexported helpers are
+// interpreted in place (so extracting part of a formula into a helper in one
+// twin only does not change its DAG), array temporaries are locations like
+// any other, and a plain copy (Element.Set, a struct assignment) forwards the
+// term it copies.
 func dagOf(fn *ssa.Function) (out map[string]*dterm, err string) {
 	if fn == nil || len(fn.Blocks) == 0 {
 		return nil, "no Go body"
 	}
-	live := load.LiveBlocks(fn)
-	if len(live) != 1 {
+	if len(load.LiveBlocks(fn)) != 1 {
 		return nil, "body is not straight-line"
 	}
 	mem := map[string]*dterm{}
 	alias := map[ssa.Value]string{} // pointer-valued call results -> location
 	allocN := 0
 	allocs := map[*ssa.Alloc]string{}
-	var path func(v ssa.Value) (string, bool)
-	path = func(v ssa.Value) (string, bool) {
+	var path func(v ssa.Value, fr *dframe) (string, bool)
+	path = func(v ssa.Value, fr *dframe) (string, bool) {
 		switch v := v.(type) {
 		case *ssa.Parameter:
-			for i, p := range fn.Params {
-				if p == v {
-					return sprintf("p%d", i), true
-				}
+			if s, ok := fr.locs[v]; ok {
+				return s, true
 			}
 		case *ssa.Alloc:
 			if s, ok := allocs[v]; ok {
@@ -81,7 +117,7 @@ func dagOf(fn *ssa.Function) (out map[string]*dterm, err string) {
 			allocN++
 			return allocs[v], true
 		case *ssa.FieldAddr:
-			base, ok := path(v.X)
+			base, ok := path(v.X, fr)
 			if !ok {
 				return "", false
 			}
@@ -90,6 +126,14 @@ func dagOf(fn *ssa.Function) (out map[string]*dterm, err string) {
 				return "", false
 			}
 			return base + "." + st.Field(v.Field).Name(), true
+		case *ssa.IndexAddr:
+			// an element of an array temporary, constant index
+			base, ok := path(v.X, fr)
+			k, isK := constInt(v.Index)
+			if !ok || !isK {
+				return "", false
+			}
+			return base + sprintf(".[%d]", k), true
 		case *ssa.Global:
 			return "G:" + v.Name(), true
 		case *ssa.Call:
@@ -99,7 +143,8 @@ func dagOf(fn *ssa.Function) (out map[string]*dterm, err string) {
 		}
 		return "", false
 	}
-	read := func(p string) *dterm {
+	var read func(p string) *dterm
+	read = func(p string) *dterm {
 		if t := mem[p]; t != nil {
 			return t
 		}
@@ -107,6 +152,17 @@ func dagOf(fn *ssa.Function) (out map[string]*dterm, err string) {
 		for i := len(p) - 1; i > 0; i-- {
 			if p[i] == '.' {
 				if t := mem[p[:i]]; t != nil {
+					if strings.HasPrefix(t.op, "in:") && len(t.args) == 0 {
+						return &dterm{op: t.op + p[i:]} // a component of an (unmodified) input
+					}
+					if strings.HasPrefix(t.op, "struct:") {
+						// a copy of a whole whose components were written
+						for _, f := range t.args {
+							if f.op == "fld"+p[i:] {
+								return f.args[0]
+							}
+						}
+					}
 					return &dterm{op: "sel" + p[i:], args: []*dterm{t}}
 				}
 			}
@@ -136,9 +192,10 @@ func dagOf(fn *ssa.Function) (out map[string]*dterm, err string) {
 		}
 		mem[p] = t
 	}
-	operand := func(v ssa.Value) (*dterm, bool) {
+	var operand func(v ssa.Value, fr *dframe) (*dterm, bool)
+	operand = func(v ssa.Value, fr *dframe) (*dterm, bool) {
 		if _, isPtr := v.Type().Underlying().(*types.Pointer); isPtr {
-			p, ok := path(v)
+			p, ok := path(v, fr)
 			if !ok {
 				return nil, false
 			}
@@ -151,65 +208,151 @@ func dagOf(fn *ssa.Function) (out map[string]*dterm, err string) {
 			}
 			return &dterm{op: "k:" + v.Value.ExactString()}, true
 		case *ssa.Parameter:
-			p, _ := path(v)
-			return &dterm{op: "in:" + p}, true
+			if t, ok := fr.vals[v]; ok {
+				return t, true
+			}
+		case *ssa.UnOp:
+			// a load: the value of the location
+			if v.Op == token.MUL {
+				if p, ok := path(v.X, fr); ok {
+					return read(p), true
+				}
+			}
 		}
 		return nil, false
 	}
-	for _, b := range fn.Blocks {
-		if !live[b] {
-			continue
-		}
-		for _, in := range b.Instrs {
-			switch in := in.(type) {
-			case *ssa.Alloc, *ssa.FieldAddr, *ssa.Return, *ssa.DebugRef:
-				// addresses are resolved on use; the result pointer is the receiver
-			case *ssa.Call:
-				callee := in.Call.StaticCallee()
-				if callee == nil {
-					return nil, "dynamic call"
-				}
-				args := in.Call.Args
-				var ops []*dterm
-				for i, a := range args {
-					if i == 0 && callee.Signature.Recv() != nil {
+	var exec func(fr *dframe) string
+	exec = func(fr *dframe) string {
+		live := load.LiveBlocks(fr.fn)
+		for _, b := range fr.fn.Blocks {
+			if !live[b] {
+				continue
+			}
+			for _, in := range b.Instrs {
+				switch in := in.(type) {
+				case *ssa.Alloc, *ssa.FieldAddr, *ssa.IndexAddr, *ssa.DebugRef:
+					// addresses are resolved on use
+				case *ssa.UnOp:
+					if in.Op != token.MUL {
+						return sprintf("unsupported instruction %T (%s)", in, in.Op)
+					}
+					// loads are resolved on use (struct copies)
+				case *ssa.Return:
+					if len(in.Results) == 1 {
+						fr.ret = in.Results[0]
+					}
+				case *ssa.Store:
+					// a copy *dst = *src
+					dst, ok1 := path(in.Addr, fr)
+					t, ok2 := operand(in.Val, fr)
+					if !ok1 || !ok2 {
+						return "unsupported store (not a copy between locations)"
+					}
+					write(dst, t)
+				case *ssa.Call:
+					callee := in.Call.StaticCallee()
+					if callee == nil {
+						return "dynamic call"
+					}
+					args := in.Call.Args
+					if fr.depth < 3 && inlineHelper(callee) {
+						nf := &dframe{fn: callee, locs: map[*ssa.Parameter]string{}, vals: map[*ssa.Parameter]*dterm{}, depth: fr.depth + 1}
+						okBind := len(args) == len(callee.Params)
+						for i, a := range args {
+							if !okBind {
+								break
+							}
+							if _, isPtr := a.Type().Underlying().(*types.Pointer); isPtr {
+								p, ok := path(a, fr)
+								if !ok {
+									okBind = false
+									break
+								}
+								nf.locs[callee.Params[i]] = p
+								continue
+							}
+							t, ok := operand(a, fr)
+							if !ok {
+								okBind = false
+								break
+							}
+							nf.vals[callee.Params[i]] = t
+						}
+						if okBind {
+							if e := exec(nf); e != "" {
+								return e + " (in helper " + funcKey(callee) + ")"
+							}
+							if nf.ret != nil {
+								if _, isPtr := nf.ret.Type().Underlying().(*types.Pointer); isPtr {
+									if p, ok := path(nf.ret, nf); ok {
+										alias[in] = p
+									}
+								}
+							}
+							continue
+						}
+					}
+					var ops []*dterm
+					for i, a := range args {
+						if i == 0 && callee.Signature.Recv() != nil {
+							continue
+						}
+						t, ok := operand(a, fr)
+						if !ok {
+							return sprintf("unsupported operand %s of %s", a.Name(), funcKey(callee))
+						}
+						ops = append(ops, t)
+					}
+					if callee.Signature.Recv() != nil {
+						dst, ok := path(args[0], fr)
+						if !ok {
+							return sprintf("receiver of %s is not a location", funcKey(callee))
+						}
+						op := "call:" + funcKey(callee)
+						if isNamed(callee.Signature.Recv().Type(), fieldRel, "Element") {
+							op = callee.Name()
+							if op == "Set" && len(ops) == 1 {
+								// a plain copy forwards the term
+								write(dst, ops[0])
+								if _, isPtr := in.Type().Underlying().(*types.Pointer); isPtr {
+									alias[in] = dst
+								}
+								continue
+							}
+						}
+						write(dst, &dterm{op: op, args: ops})
+						if _, isPtr := in.Type().Underlying().(*types.Pointer); isPtr {
+							alias[in] = dst // methods of these types return their receiver
+						}
 						continue
 					}
-					t, ok := operand(a)
-					if !ok {
-						return nil, sprintf("unsupported operand %s of %s", a.Name(), funcKey(callee))
-					}
-					ops = append(ops, t)
-				}
-				if callee.Signature.Recv() != nil {
-					dst, ok := path(args[0])
-					if !ok {
-						return nil, sprintf("receiver of %s is not a location", funcKey(callee))
-					}
-					op := "call:" + funcKey(callee)
-					if isNamed(callee.Signature.Recv().Type(), fieldRel, "Element") {
-						op = callee.Name()
-					}
-					write(dst, &dterm{op: op, args: ops})
-					if _, isPtr := in.Type().Underlying().(*types.Pointer); isPtr {
-						alias[in] = dst // methods of these types return their receiver
-					}
-					continue
-				}
-				// plain function: every pointer argument is in/out
-				for i, a := range args {
-					if _, isPtr := a.Type().Underlying().(*types.Pointer); isPtr {
-						dst, ok := path(a)
-						if !ok {
-							return nil, sprintf("argument of %s is not a location", funcKey(callee))
+					// plain function: every pointer argument is in/out
+					for i, a := range args {
+						if _, isPtr := a.Type().Underlying().(*types.Pointer); isPtr {
+							dst, ok := path(a, fr)
+							if !ok {
+								return sprintf("argument of %s is not a location", funcKey(callee))
+							}
+							write(dst, &dterm{op: sprintf("call:%s#%d", funcKey(callee), i), args: ops})
 						}
-						write(dst, &dterm{op: sprintf("call:%s#%d", funcKey(callee), i), args: ops})
 					}
+				default:
+					return sprintf("unsupported instruction %T", in)
 				}
-			default:
-				return nil, sprintf("unsupported instruction %T", in)
 			}
 		}
+		return ""
+	}
+	top := &dframe{fn: fn, locs: map[*ssa.Parameter]string{}, vals: map[*ssa.Parameter]*dterm{}}
+	for i, p := range fn.Params {
+		if _, isPtr := p.Type().Underlying().(*types.Pointer); isPtr {
+			top.locs[p] = sprintf("p%d", i)
+		} else {
+			top.vals[p] = &dterm{op: sprintf("in:p%d", i)}
+		}
+	}
+	if e := exec(top); e != "" {
+		return nil, e
 	}
 	out = map[string]*dterm{}
 	for k, t := range mem {
@@ -318,7 +461,7 @@ func CheckDuality(run *report.Run, p *load.Program, ruleID string) []DualPair {
 			addDag, e1 := dagOf(addF)
 			subDag, e2 := dagOf(subF)
 			if e1 != "" || e2 != "" {
-				ru.Failf(p.Pos(subM.Pos()), construct, "cannot build the operation DAG of the twins (%s%s): undecided", e1, e2)
+				ru.Failf(p.Pos(subM.Pos()), construct, "cannot build the operation DAG of the twins (%s): undecided", strings.TrimPrefix(e1+"; "+e2, "; "))
 				res = append(res, dp)
 				continue
 			}
